@@ -3,3 +3,6 @@ CONSTANTS
   MhdrFileRelative = FALSE
   NK = 256
   MaxRounds = 4
+INIT GenInit
+NEXT GenNext
+CHECK_DEADLOCK FALSE
